@@ -1827,7 +1827,7 @@ public:
     crab::CrabStats::count(domain_name() + ".count.forget");
     crab::ScopedCrabStats __st__(domain_name() + ".forget");
 
-    if (is_bottom() || is_top()) {
+    if (is_bottom()) {
       return;
     }
 
@@ -1869,7 +1869,7 @@ public:
     crab::CrabStats::count(domain_name() + ".count.project");
     crab::ScopedCrabStats __st__(domain_name() + ".project");
 
-    if (is_bottom() || is_top()) {
+    if (is_bottom()) {
       return;
     }
 
@@ -1893,7 +1893,7 @@ public:
 
   void rename(const variable_vector_t &from,
               const variable_vector_t &to) override {
-    if (is_bottom() || is_top()) {
+    if (is_bottom()) {
       return;
     }
     
@@ -1928,7 +1928,7 @@ public:
     crab::CrabStats::count(domain_name() + ".count.expand");
     crab::ScopedCrabStats __st__(domain_name() + ".expand");
 
-    if (is_bottom() || is_top()) {
+    if (is_bottom()) {
       return;
     }
 
